@@ -33,8 +33,8 @@ class SimTap:
         self.hits = 0
         tap = self
 
-        def wrapped(self_, q_dot, time_values, g):
-            r = tap.orig(self_, q_dot, time_values, g)
+        def wrapped(self_, q_dot, time_values, g, *a_, **kw_):
+            r = tap.orig(self_, q_dot, time_values, g, *a_, **kw_)
             tap.hits += 1
             tap.calls.append({"q": np.array(q_dot, dtype=float, copy=True), "t": np.array(time_values, dtype=float, copy=True),
                               "gx": np.array(g.x, copy=True), "gy": np.array(g.y, copy=True),
